@@ -303,6 +303,12 @@ def expr_str(e):
         return '(%s %s %s)' % (expr_str(e['l']), e['op'], expr_str(e['r']))
     if e['t'] == 'asarr':
         return 'np.asarray(%s)' % expr_str(e['e'])
+    if e['t'] == 'part':
+        # a view of part of a variable (its labels no longer fit its shape)
+        return '%s[%s]' % (expr_str(e['e']),
+                           {'first': '0', 'tail': '1:', 'every2': '::2',
+                            'all': '...'}[e['how']]) \
+            if e['how'] != 'marr' else '%s.array()' % expr_str(e['e'])
     if e['t'] == 'where':
         return 'np.ma.where(%s, %s, %s)' % (expr_str(e['c']),
                                             expr_str(e['x']),
@@ -924,6 +930,23 @@ def gen_program(rnd, depth, focus=None, isolation=False, templates=None,
                 st = {'act': 'query', 'src': src, 'others': [], 'args': q}
             else:
                 st = gen_step(rnd, shadows[src - 1], src, shadows, focus)
+            if st['act'] == 'eval' and st['args'].get('assign') and \
+                    rnd.random() < (0.3 if isolation else 0.1):
+                # (the value is outside what the model specifies: the call
+                # raises or the result is well-formed, and nothing is shared)
+                ks = [k for k, dd in shadows[src - 1].vars.items()
+                      if len(dd) >= 1 and k not in shadows[src - 1].coords]
+                if ks:
+                    k = rnd.choice(ks)
+                    hows = ['first', 'tail', 'every2', 'all']
+                    if shadows[src - 1].masked.get(k) and \
+                            type(objs[src - 1].variables[k]).__module__ \
+                            .startswith('PseudoNetCDF'):
+                        # the bare masked-array view of a masked variable
+                        hows += ['marr', 'marr', 'marr']
+                    st['args']['assign'][0]['e'] = {
+                        't': 'part', 'how': rnd.choice(hows),
+                        'e': {'t': 'var', 'k': k}}
             if st['act'] == 'interp' and rnd.random() < 0.5:
                 # the target levels are the coordinate variable of a file
                 d = st['args']['d']
